@@ -346,7 +346,10 @@ def m_deref(ctx, cty, a):
     v = deref1(r)
     t = type(v)
     if t is StringObj:
-        tr = cty.b.generics() if cty.kind == "qpath" and cty.b is not None else []
+        if cty.kind == "qpath" and cty.b is not None and cty.b.head().endswith("DerefMut") and cty.a is not None \
+                and cty.a.kind == "path" and cty.a.head() == "std::vec::Vec":
+            # &mut Vec<u8> -> &mut [u8]: a view that writes through
+            return SliceRef(ByteCells(v))
         return v.s
     if t is VecObj:
         return SliceRef(v.items)
@@ -635,6 +638,9 @@ class ByteCells:
         cs[i] = b
         self.sobj.s = SStr.of_chars(cs)
 
+    def __len__(self):
+        return len(self.sobj.s.chars)
+
 
 def is_u8(t):
     return t is not None and t.kind == "path" and t.head() == "u8"
@@ -891,6 +897,13 @@ def m_slice_to_vec(ctx, cty, a):
 @model("std::vec::from_elem")
 def m_from_elem(ctx, cty, a):
     n = ctx.concretize(a[1], "from_elem")
+    t = None
+    try:
+        t = generic_arg(cty, 0)
+    except Exception:
+        pass
+    if is_u8(t) and (type(a[0]) is int or is_sym(a[0])):
+        return StringObj(SStr.of_chars([a[0]] * n))
     return VecObj([clone_value(ctx, a[0]) for _ in range(n)])
 
 
